@@ -120,16 +120,19 @@ def run(ctx):
         okr = [x for x in rows if x.conds and x.conds[0] == (loop, 'Ok(_)')]
         err = [x for x in rows if x.conds and x.conds[0] == (loop, 'Err(_)')]
         r.check('starts-in-Start', all('let $m0 = %sStart(options)' % HS in x.effects for x in rows), site, built=[x.effects[:1] for x in rows][:1], expected='state initialised to Start(options)')
-        r.check('loop-call', len(okr) == 3 and len(err) == 2, site, built=[x.cond_strs()[:1] for x in rows], expected='run_io_loop(.., handle_handshake_event, .., is_handshake_done) starting in state Start(options)')
+        r.check('loop-call', len(okr) == 3 and len(err) >= 2, site, built=[x.cond_strs()[:1] for x in rows], expected='run_io_loop(.., handle_handshake_event, .., is_handshake_done) starting in state Start(options)')
         got = {x.conds[-1][1]: (x.value_str(), x.done) for x in okr}
         r.eq('Done', got.get(HS + 'Done(_, _, _)'), ('Ok(($m0.Done.0, $m0.Done.1, $m0.Done.2))', None), site)
         r.eq('ServerClosing', got.get(HS + 'ServerClosing(_)'),
              ('Err(errors::Error::ServerClosedConnection{code: $m0.ServerClosing.0.reply_code, message: $m0.ServerClosing.0.reply_text})', None), site)
-        e1 = [x for x in err if x.conds[-1][1] == '(%sSecure(_, _), errors::Error::UnexpectedSocketClose)' % HS]
-        e2 = [x for x in err if x.conds[-1][1] == 'not (%sSecure(_, _), errors::Error::UnexpectedSocketClose)' % HS]
+        # (state, error) is decided level by level: the state, then -- only in Secure -- the error
+        ERRV = loop + '.Err.0'
+        e1 = [x for x in err if x.conds[1:] == [('$m0', HS + 'Secure(_, _)'), (ERRV, 'errors::Error::UnexpectedSocketClose')]]
+        e2 = [x for x in err if x not in e1]
         r.check('socket-closed-after-StartOk', len(e1) == 1 and e1[0].value_str() == 'Err(errors::Error::InvalidCredentials)', site, built=[x.row() for x in err],
                 expected='(Secure, UnexpectedSocketClose) => InvalidCredentials', why='InvalidCredentials only when the connection is dropped after StartOk without a reply')
-        r.check('other-errors-unchanged', len(e2) == 1 and e2[0].value_str() == 'Err(%s.Err.0)' % loop and err.index(e2[0]) > (err.index(e1[0]) if e1 else -1), site, built=[x.row() for x in e2],
+        covered = A.covers_all([list(x.conds[1:]) for x in err])
+        r.check('other-errors-unchanged', e2 and covered and all(x.value_str() == 'Err(%s)' % ERRV for x in e2), site, built=[x.row() for x in e2],
                 expected='every other (state, error) => Err(err) unchanged', why='SaslSecureNotSupported, ConnectionTimeout, MalformedFrame ... must keep their identity')
         r.check('timeout-cleared-on-success', all('self.connection_timeout = None' in x.effects for x in okr), site, built=[x.effects for x in okr])
 
